@@ -223,12 +223,29 @@ def check_structured(cx, http, DS, rng, cfg):
             ts = exp.timestamp()
             d = http.http_date(ts)
             cx.eq("date", ts, d, http.parse_date(d), exp, "C06/date-from-timestamp")
+            # the other documented inputs of http_date: a calendar date (midnight UTC) and a time tuple (which, as
+            # everywhere in the time module, is local time: the inverse of time.localtime)
+            day = exp.date()
+            d = http.http_date(day)
+            cx.eq("date", day, d, http.parse_date(d), datetime(day.year, day.month, day.day, tzinfo=timezone.utc), "C06/date-from-date-object")
+            if 1971 <= exp.year <= 2037:
+                import time as _time
+
+                d = http.http_date(_time.localtime(ts))
+                cx.eq("date", "localtime tuple", d, http.parse_date(d), exp, "C06/date-from-time-tuple")
     # age
     a = rng.choice([0, 1, 59, 60, 3600, 86400 * 365, 10**9, rng.randrange(10**7), timedelta(seconds=rng.randrange(10**6)), timedelta(days=2, seconds=3)])
     with rec.guard({"pair": "age", "value": repr(a)}, "C06"):
         d = http.dump_age(a)
         rec.nontrivial(("age", repr(a)))
         cx.eq("age", a, d, http.parse_age(d), a if isinstance(a, timedelta) else timedelta(seconds=a))
+    # a single entity tag with its weakness flag (the pair behind response.set_etag / get_etag)
+    tag1 = rng.choice(["", "a", "W/", "w/x", "a b", "\u00fc", "x,y", "*", "W/*"]) + rng.choice(["", "z", "\\", "'", ";=", " "])
+    for weak in (False, True):
+        with rec.guard({"pair": "etag-single", "value": [tag1, weak]}, "C06"):
+            d = http.quote_etag(tag1, weak)
+            rec.nontrivial(("etag-single", tag1, weak))
+            cx.eq("etag-single", (tag1, weak), d, http.unquote_etag(d), (tag1, weak), "C06/etag-single")
     # an entity tag whose text happens to be an HTTP date is still an entity tag (it is sent quoted)
     tagtext = http.http_date(rng.randrange(0, 2**31))
     with rec.guard({"pair": "if-range", "value": tagtext}, "C06"):
